@@ -103,6 +103,18 @@ func round(r *vh.Run, i int, ov *overlap) {
 		c.Log = slog.New(slog.NewTextHandler(io.Discard, &slog.HandlerOptions{Level: slog.LevelDebug - 8}))
 		r.Count("rounds_with_a_formatting_logger", 1)
 	}
+	if kind == vh.MemDir {
+		// the memory store only reads a backing directory that is an OCI layout: a directory store creates the
+		// repositories first, so that the memory store's look-ups in the directory (blobs it does not hold itself) run
+		// under the traffic below
+		ps := vh.New(vh.Conf(vh.Dir, root, vh.Neutral))
+		for _, rp := range []string{"a", "b"} {
+			b := []byte(fmt.Sprintf("backing content %d %s", i, rp))
+			vh.Do(ps, vh.Req{Method: "POST", URL: "/v2/" + rp + "/blobs/uploads/?digest=" + vh.DigestOf("sha256", b), Body: b})
+		}
+		_ = ps.Close()
+		r.Count("rounds_memory_over_populated_directory", 1)
+	}
 	srv := vh.New(c)
 	h := tracked{h: srv, ov: ov}
 	var done, inflight atomic.Int64
